@@ -76,6 +76,8 @@ pub enum DynVal {
     Map(Vec<(DynVal, DynVal)>),
     Struct(Vec<(&'static str, DynVal)>),
     NewtypeStruct(Box<DynVal>),
+    /// a field declared `any` that holds the inner value: serialised through `conjure_object::Any`'s own Serialize impl
+    ViaAny(Box<DynVal>),
     UnitStruct,
     UnitVariant(u32),
     NewtypeVariant(u32, Box<DynVal>),
@@ -158,7 +160,7 @@ impl PartialEq for DynVal {
             (SafeLong(a), SafeLong(b)) => a == b,
             (DoubleKey(a), DoubleKey(b)) => feq64(a.0, b.0),
             (DateTime(a), DateTime(b)) => a == b,
-            (Some(a), Some(b)) | (NewtypeStruct(a), NewtypeStruct(b)) => a == b,
+            (Some(a), Some(b)) | (NewtypeStruct(a), NewtypeStruct(b)) | (ViaAny(a), ViaAny(b)) => a == b,
             (Seq(a), Seq(b)) | (Tuple(a), Tuple(b)) | (TupleStruct(a), TupleStruct(b)) => a == b,
             // map entries are compared as multisets (encodings may reorder them)
             (Map(a), Map(b)) => a.len() == b.len() && a.iter().all(|x| b.iter().any(|y| x == y)),
@@ -238,6 +240,7 @@ impl Serialize for DynVal {
                 q.end()
             }
             NewtypeStruct(v) => s.serialize_newtype_struct("N", &**v),
+            ViaAny(v) => conjure_object::Any::new(&**v).map_err(serde::ser::Error::custom)?.serialize(s),
             UnitStruct => s.serialize_unit_struct("U"),
             UnitVariant(i) => s.serialize_unit_variant(ENUM_NAME, *i, VARIANTS[*i as usize]),
             NewtypeVariant(i, v) => s.serialize_newtype_variant(ENUM_NAME, *i, VARIANTS[*i as usize], &**v),
@@ -625,6 +628,7 @@ pub fn val_from_json(v: &Value) -> Result<DynVal, String> {
         ),
         "struct" => DynVal::Struct(fields_of(&v["fields"])?),
         "newtype_struct" => DynVal::NewtypeStruct(Box::new(val_from_json(&v["item"])?)),
+        "via_any" => DynVal::ViaAny(Box::new(val_from_json(&v["item"])?)),
         "unit_struct" => DynVal::UnitStruct,
         "unit_variant" => DynVal::UnitVariant(v["idx"].as_u64().ok_or("idx")? as u32),
         "newtype_variant" => DynVal::NewtypeVariant(v["idx"].as_u64().ok_or("idx")? as u32, Box::new(val_from_json(&v["item"])?)),
@@ -723,6 +727,7 @@ pub fn val_to_json(v: &DynVal) -> Value {
         Map(x) => json!({"k": "map", "entries": x.iter().map(|(k, e)| json!([val_to_json(k), val_to_json(e)])).collect::<Vec<_>>()}),
         Struct(x) => json!({"k": "struct", "fields": flds(x)}),
         NewtypeStruct(x) => json!({"k": "newtype_struct", "item": val_to_json(x)}),
+        ViaAny(x) => json!({"k": "via_any", "item": val_to_json(x)}),
         UnitStruct => json!({"k": "unit_struct"}),
         UnitVariant(i) => json!({"k": "unit_variant", "idx": i}),
         NewtypeVariant(i, x) => json!({"k": "newtype_variant", "idx": i, "item": val_to_json(x)}),
